@@ -289,6 +289,18 @@ func (ll *LevelList) NewWithChangeSet(cs *ChangeSet) *LevelList {
 	return nextLL
 }
 
+// IncludesTableURI reports whether one of the tables has the given URI.
+func (ll *LevelList) IncludesTableURI(uri string) bool {
+	for _, level := range ll.levels {
+		for t := range level.AllTables() {
+			if t.URI() == uri {
+				return true
+			}
+		}
+	}
+	return false
+}
+
 // MaxTableFileNum returns the highest file number among the tables' file names
 // ("000012.sst" is 12), or -1 if there are none.
 func (ll *LevelList) MaxTableFileNum() int64 {
